@@ -30,6 +30,10 @@ def fmt_num(rng, x, style):
         s = f"{x:.8E}"
     else:
         s = f"{x:.8E}".replace("E", "D")
+    # Fortran and C both accept an exponent without sign (0.3425D2, 1.5E3); written so for about a third of the numbers >= 1
+    if style != "plain" and ("E+" in s or "D+" in s) and rng.random() < 0.35:
+        mant, ex = s.replace("D", "E").split("E+")
+        s = mant + ("D" if "D" in s else "E") + str(int(ex))
     return s
 
 
@@ -39,6 +43,11 @@ def rand_desc(rng):
     desc = []
     for el in elems:
         groups = []
+        # about one element in four starts with a shell that repeats the letters and exponents of the last shell of the element written
+        # before it (universal / even-tempered primitive sets shared by neighbouring elements)
+        if desc and rng.random() < 0.25:
+            pl, prow = desc[-1][1][-1]
+            groups.append((list(pl), [(e, [fmt_num(rng, rng.choice([-1, 1]) * 10 ** rng.uniform(-3, 1), "E") for _ in cs]) for e, cs in prow]))
         for _ in range(rng.randint(1, 8)):
             nprim = rng.randint(1, 10)
             if rng.random() < 0.2:
@@ -220,6 +229,11 @@ def repeated_import_case(run, rng, fmt):
         r1 = parse(path)
         el = next(iter(r1))
         basis = make_contractions(r1, [el], np.zeros((1, 3)), "cartesian")
+        if not (basis[0].exps.flags.writeable and basis[0].coeffs.flags.writeable and all(
+                a.flags.writeable for sh in r1[el] for a in sh[1:] if isinstance(a, np.ndarray))):
+            run.violation("make_contractions left an array of its argument / of the shells it returned read-only: a valid in-place "
+                          "parameter update is refused", dict(rep, signature={"kind": "make-contractions-argument-flags"}))
+            return False
         basis[0].exps *= 1.44                      # in-place parameter update of a shell built from the first result
         basis[0].assign_norm_cont()
         r1[el].append((0, np.array([1.0]), np.array([[1.0]])))      # the caller edits the dictionary it was given
@@ -269,6 +283,7 @@ def contractions_case(run, rng):
         ct = lst if kind == "list" else tuple(lst)
     snap_atoms, snap_coords, snap_ct = copy.deepcopy(atoms), coords.copy(), copy.deepcopy(ct)
     snap_bd = {k: [(l, e.copy(), c.copy()) for l, e, c in v] for k, v in bd.items()}
+    flags0 = [(e.flags.writeable, c.flags.writeable) for v in bd.values() for _, e, c in v] + [coords.flags.writeable]
     rep = {"case": "contractions", "atoms": atoms, "coord_types": list(ct) if kind != "str" else ct, "kind": kind}
     run.case(("mk", kind, tuple(atoms), total))
     run.count("coord_types as " + kind)
@@ -279,6 +294,11 @@ def contractions_case(run, rng):
         except Exception as e:
             run.violation(f"make_contractions raised {type(e).__name__} (coord_types given as {kind}, call #{call + 1} with the same objects)",
                           dict(rep, signature={"kind": "make-contractions-raises"}))
+            return False
+        flags1 = [(e.flags.writeable, c.flags.writeable) for v in bd.values() for _, e, c in v] + [coords.flags.writeable]
+        if flags1 != flags0:
+            run.violation("make_contractions changed the flags of an argument array (an array that was writeable is read-only afterwards)",
+                          dict(rep, signature={"kind": "make-contractions-argument-flags"}))
             return False
         exp = []
         for k, a in enumerate(atoms):
